@@ -25,29 +25,79 @@ def substitute(expr, mapping):
     return Subst(mapping).visit(copy.deepcopy(expr))
 
 
+def _always_raises(stmts):
+    if not stmts:
+        return False
+    st = stmts[-1]
+    if isinstance(st, ast.Raise):
+        return True
+    if isinstance(st, ast.If):
+        return bool(st.orelse) and _always_raises(st.body) and \
+            _always_raises(st.orelse)
+    return False
+
+
+def _returning_sequences(stmts, fi, limit=4):
+    """Statement sequences (guards removed) of the paths of `stmts` that end
+    in a return or fall off the end; paths that raise are dropped.  Each
+    sequence is (list of simple statements, terminated?)."""
+    seqs = [([], False)]
+    for i, st in enumerate(stmts):
+        nxt = []
+        for seq, done in seqs:
+            if done:
+                nxt.append((seq, True))
+                continue
+            if isinstance(st, ast.Expr) and isinstance(st.value,
+                                                       ast.Constant):
+                nxt.append((seq, False))
+            elif isinstance(st, (ast.Assign, ast.Expr, ast.AugAssign,
+                                 ast.Pass)):
+                nxt.append((seq + [st], False))
+            elif isinstance(st, ast.Return):
+                nxt.append((seq + [st], True))
+            elif isinstance(st, ast.Raise):
+                pass        # this path raises
+            elif isinstance(st, ast.If):
+                for arm in (st.body, st.orelse):
+                    if _always_raises(arm):
+                        continue
+                    for s2, d2 in _returning_sequences(arm, fi, limit):
+                        nxt.append((seq + s2, d2))
+            else:
+                raise AnalysisError('not a straight-line helper: %s in %s'
+                                    % (type(st).__name__, fi.qualname), st,
+                                    rel(fi.path))
+        seqs = nxt
+        if len(seqs) > limit:
+            raise AnalysisError('not a straight-line helper: %s has more '
+                                'than %d returning paths' % (fi.qualname,
+                                                             limit),
+                                st, rel(fi.path))
+    return seqs
+
+
 def straight_line_value(fi):
-    """For a function whose body is assignments to simple names, expression
-    statements and one final return: the returned expression with locals
-    substituted (calls are kept as calls; order of *effectful* statements
-    is returned separately).  Returns (expr, effects) where effects is the
-    list of expression statements in order, each with locals substituted."""
+    """For a function with exactly one path that returns (guards that only
+    raise, in either polarity, do not count): the returned expression with
+    locals substituted (calls are kept as calls; order of *effectful*
+    statements is returned separately).  Returns (expr, effects, env) where
+    effects is the list of expression statements in order, each with locals
+    substituted."""
+    seqs = _returning_sequences(list(fi.body), fi)
+    if len(seqs) != 1:
+        raise AnalysisError('not a straight-line helper: %s has %d returning '
+                            'paths' % (fi.qualname, len(seqs)), fi.node,
+                            rel(fi.path))
     env = {}
     effects = []
-    body = list(fi.body)
-    for st in body:
-        if isinstance(st, ast.Expr) and isinstance(st.value, ast.Constant):
-            continue
+    for st in seqs[0][0]:
         if isinstance(st, ast.Assign) and len(st.targets) == 1 and \
                 isinstance(st.targets[0], ast.Name):
             env[st.targets[0].id] = substitute(st.value, env)
         elif isinstance(st, ast.Expr):
             effects.append(substitute(st.value, env))
-        elif isinstance(st, ast.If) and not st.orelse and st.body and \
-                isinstance(st.body[-1], ast.Raise) and all(
-                    isinstance(x, (ast.Raise, ast.Expr, ast.Assign))
-                    for x in st.body):
-            # a guard that only raises: does not change the value computed
-            # on the paths that return
+        elif isinstance(st, ast.Pass):
             continue
         elif isinstance(st, ast.Return):
             val = substitute(st.value, env) if st.value is not None else \
